@@ -59,7 +59,10 @@ CFG = dict(
                  "two interface names never share an ifindex at the same time; ifindexes are not reused",
                  "desired routes are routes the ownership policy recognises as Felix's (as Felix's managers produce them)",
                  "at most one netlink connection failure per Apply and none in consecutive Applies (handlemgr panics after 3 by design)",
-                 "the kernel flushes the routes of a link that goes down or away (EFlush)"],
+                 "the kernel flushes the routes of a link that goes down or away (EFlush)",
+                 "history theorems (c17_any_history, c17_history_keeps_invariant): kernel links well formed (unique names/ifindexes, no ifindex 0), "
+                 "interface events do not renumber a name without the deletion being reported first, nobody else changes Felix's routes after start of day, "
+                 "plans are honest (no overtaken dump, no LinkByName falsely answering 'not found'), an Apply is preceded by a resync request if interface churn happened while none was pending"],
 )
 
 
